@@ -454,6 +454,10 @@ def _inc(x):
     return x + 1
 
 
+def _tasklike(n):
+    return (len, "abc"[: n % 3 + 1]) if n % 2 == 0 else [(max, n, 7), {"k": (len, "ab")}]
+
+
 def _addk(k):
     def f(v):
         return v + k
@@ -498,6 +502,10 @@ def real_coll(cid, kinds=None):
         x = np.arange(n % 4 + 2) + cid
         f, g = U.LONG_MAPS[2], U.LONG_MAPS[3]
         return da.from_array(x, chunks=-1).map_blocks(f, dtype=x.dtype)[::-1].map_blocks(g, dtype=x.dtype), g(f(x)[::-1])
+    if kind.startswith("s"):
+        sh = _shared_coll(kind, n)
+        if sh is not None:
+            return sh
     import pandas as pd
     from core import import_dd
     dd = import_dd()
@@ -506,6 +514,97 @@ def real_coll(cid, kinds=None):
     if kind == "series":
         return ddf.a + 1, df.a + 1
     return ddf.assign(c=ddf.a * 2), df.assign(c=df.a * 2)
+
+
+# Collections that SHARE OUTPUT KEYS when they meet in one compute / persist / optimize call: a base collection that
+# depends on `n` only (same n => same keys) and collections derived from it — its own to_delayed() pieces, .blocks[...],
+# .partitions[...], its output key wrapped as a Delayed, an Item and its to_delayed() (same token, other type), a
+# persisted copy.  The kind names say what is derived from what.
+SHARE_KINDS = ["sarr", "sarr-piece0", "sarr-pieceL", "sarr-block0", "sarr-blockL", "sarr-key", "sarr-persisted", "sarr-slice",
+               "sbag", "sbag-piece0", "sbag-pieceL", "sbag-key", "sbag-persisted", "sitem", "sitem-del",
+               "sdel", "sdel-key", "sdel-persisted", "delayed", "stask", "stask-persisted"]
+SHARE_KINDS_DF = SHARE_KINDS + ["sframe", "sframe-part0", "sframe-del0"]
+
+
+def _shared_coll(kind, n):
+    import numpy as np
+    import dask
+    from dask.core import flatten
+    from dask.delayed import Delayed
+    base, _, how = kind.partition("-")
+    if base == "sarr":
+        import dask.array as da
+        x = np.arange(n % 4 + 3) * (n + 1)
+        c, v = da.from_array(x, chunks=2) + n, x + n
+        blocks = [v[i:i + 2] for i in range(0, len(v), 2)]
+        if how in ("piece0", "pieceL"):
+            return c.to_delayed().ravel()[0 if how == "piece0" else -1], blocks[0 if how == "piece0" else -1]
+        if how in ("block0", "blockL"):
+            return c.blocks[0 if how == "block0" else len(blocks) - 1], blocks[0 if how == "block0" else -1]
+        if how == "slice":
+            return c[:2], v[:2]
+    elif base == "sbag":
+        import dask.bag as db
+        seq = [n + i for i in range(n % 3 + 2)]
+        c, v = db.from_sequence(seq, npartitions=2).map(_inc), [x + 1 for x in seq]
+        if how in ("piece0", "pieceL"):
+            parts = c.to_delayed()
+            sizes = [len(p.compute(scheduler="sync")) for p in parts]
+            i = 0 if how == "piece0" else len(parts) - 1
+            lo = sum(sizes[:i])
+            return parts[i], v[lo:lo + sizes[i]]
+    elif base == "sitem":
+        import dask.bag as db
+        seq = [n + i for i in range(n % 3 + 2)]
+        c, v = db.from_sequence(seq, npartitions=2).map(_inc).sum(), sum(x + 1 for x in seq)
+        if how == "del":
+            return c.to_delayed(), v
+    elif base == "sdel":
+        c, v = dask.delayed(_inc, pure=True)(1000 + n), 1001 + n
+    elif base == "stask":
+        # a value that LOOKS like a task (a tuple headed by a callable): it is data and must stay data
+        c, v = dask.delayed(_tasklike, pure=True)(n), _tasklike(n)
+    elif base == "sframe":
+        import pandas as pd
+        from core import import_dd
+        dd = import_dd()
+        df = pd.DataFrame({"a": [n + i for i in range(n % 3 + 3)], "b": [float(i) for i in range(n % 3 + 3)]})
+        c, v = dd.from_pandas(df, npartitions=2), df
+        if how == "part0":
+            return c.partitions[0], c.partitions[0].compute(scheduler="sync")
+        if how == "del0":
+            return c.to_delayed()[0], c.partitions[0].compute(scheduler="sync")
+    else:
+        return None
+    if how == "":
+        return c, v
+    if how == "key":
+        # the collection's first output key as a Delayed of its own
+        k = list(flatten(c.__dask_keys__()))[0]
+        first = v[:2] if base == "sarr" else (c.to_delayed()[0].compute(scheduler="sync") if base == "sbag" else v)
+        return Delayed(k, c.__dask_graph__(), layer=c.__dask_layers__()[-1]), first
+    if how == "persisted":
+        return dask.persist(c, scheduler="sync")[0], v
+    raise ValueError(kind)
+
+
+def _shares_keys(colls):
+    """(some two collections of the call share an output key, the first of such a pair holds fewer keys than the other)"""
+    from dask.core import flatten
+    keysets = []
+    for c in colls:
+        try:
+            keysets.append(set(flatten(c.__dask_keys__())))
+        except Exception:
+            keysets.append(set())
+    shared = sharer_first = False
+    for i in range(len(keysets)):
+        for j in range(i):
+            if keysets[i] & keysets[j] and colls[i] is not colls[j]:
+                shared = True
+                if len(keysets[j]) < len(keysets[i]) or keysets[j] < keysets[i]:
+                    sharer_first = True
+    return shared, sharer_first
 
 
 def val_canon(x):
@@ -660,6 +759,8 @@ def case_compute(ctx, inp):
     ks = sorted({(kinds or KINDS)[i % len(kinds or KINDS)] for i in ids})
     if len(ks) > 1:
         ctx.branch("compute-mixed-kinds")
+    if ids and _shares_keys([table[i][0] for i in _coll_ids(args)])[0]:
+        ctx.branch("compute-shared-output-keys")
     seq = [(kinds or KINDS)[i % len(kinds or KINDS)] for i in _coll_ids(args)]
     if _interleaved(seq):
         ctx.branch("compute-interleaved-optimizers")
@@ -668,6 +769,9 @@ def case_compute(ctx, inp):
 def _interleaved(seq):
     """some kind occurs, then another kind, then the first again (what grouping by optimizer reorders)"""
     fam = {"array": "a", "scalar": "a", "longarr": "a", "longbag": "bag", "series": "d", "frame": "d"}
+    fam.update({k: ("a" if k.startswith("sarr") and k.split("-")[-1] not in ("piece0", "pieceL", "key") else
+                    "bag" if k in ("sbag", "sbag-persisted", "sitem") else "d" if k in ("sframe", "sframe-part0") else "delayed")
+                for k in SHARE_KINDS_DF if k.startswith("s")})
     s = [fam.get(k, k) for k in seq]
     for i in range(len(s)):
         for j in range(i + 1, len(s)):
@@ -730,6 +834,11 @@ def case_persist(ctx, inp):
             if got != want:
                 ctx.fail(f"a collection returned by dask.{which} computes to a different value", sig=sig, observed=got, expected=want)
         ctx.branch(which + ("-with-dataframe" if has_df else ""))
+        shared, sharer_first = _shares_keys(objs)
+        if shared:
+            ctx.branch(which + "-shared-output-keys")
+        if sharer_first:
+            ctx.branch(which + "-shared-output-keys:part-before-whole")
         if any(k.startswith("long") for k in seq) and len(set(ids)) >= 2:
             ctx.branch(which + "-long-named-pipelines")
     if _interleaved(seq):
@@ -821,6 +930,8 @@ def case_persistn(ctx, inp):
             if gotv != wantv:
                 ctx.fail(f"the collections returned by dask.{which} compute to different values", observed=gotv, expected=wantv)
         ctx.branch(which + "-nested")
+        if ids and _shares_keys([table[i][0] for i in _coll_ids(args)])[0]:
+            ctx.branch(which + "-nested-shared-output-keys")
     _branches(ctx, args, "persistn-")
 
 
@@ -1013,6 +1124,30 @@ EXPLICIT_COMPUTE = [
 ]
 
 
+def _sid(kind, n=0):
+    return n * len(SHARE_KINDS) + SHARE_KINDS.index(kind)
+
+
+EXPLICIT_SHARED = [
+    # a piece before the whole, the whole before its pieces, an Item and its Delayed twin, a wrapped key, re-persisting
+    ("persist", {"ids": [_sid("sarr-piece0"), _sid("sarr")], "kinds": SHARE_KINDS}),
+    ("persist", {"ids": [_sid("sarr"), _sid("sarr-piece0"), _sid("sarr-pieceL")], "kinds": SHARE_KINDS}),
+    ("persist", {"ids": [_sid("sbag-pieceL"), _sid("sbag"), _sid("sbag-piece0")], "kinds": SHARE_KINDS}),
+    ("persist", {"ids": [_sid("sarr-block0"), _sid("sarr"), _sid("sarr-blockL")], "kinds": SHARE_KINDS}),
+    ("persist", {"ids": [_sid("sarr-key"), _sid("sarr"), _sid("sbag-key"), _sid("sbag")], "kinds": SHARE_KINDS}),
+    ("persist", {"ids": [_sid("sitem"), _sid("sitem-del")], "kinds": SHARE_KINDS}),
+    ("persist", {"ids": [_sid("stask"), _sid("stask", 1), _sid("stask-persisted"), _sid("stask-persisted", 1)], "kinds": SHARE_KINDS}),
+    ("persist", {"ids": [_sid("sitem-del"), _sid("sitem")], "kinds": SHARE_KINDS}),
+    ("persist", {"ids": [_sid("sarr-persisted"), _sid("sarr"), _sid("sdel-persisted"), _sid("sdel"), _sid("sdel-key")], "kinds": SHARE_KINDS}),
+    ("persist", {"ids": [_sid("sarr-piece0"), _sid("sarr-piece0"), _sid("sarr-piece0", 1), _sid("sarr", 1)], "kinds": SHARE_KINDS}),
+    ("compute", {"args": [["list", [["coll", _sid("sitem-del")], ["coll", _sid("sitem")]]], ["coll", _sid("sarr-piece0")], ["coll", _sid("sarr")]],
+                 "kinds": SHARE_KINDS, "traverse": True, "scheduler": "sync", "optimize_graph": True}),
+    ("persistn", {"args": [["dict", [[["leaf", 1], ["coll", _sid("sbag-piece0")]], [["leaf", 2], ["coll", _sid("sbag")]]]], ["coll", _sid("sarr-key")],
+                           ["tuple", [["coll", _sid("sarr")], ["coll", _sid("sitem-del")], ["coll", _sid("sitem")]]]],
+                  "kinds": SHARE_KINDS, "optimize_graph": True}),
+]
+
+
 def generate(ctx):
     rng = ctx.rng
     # function level: traversal model
@@ -1084,6 +1219,29 @@ def generate(ctx):
         kinds = rng.choice([["longbag"], ["longarr"], ["longbag", "longarr"], ["longbag", "delayed", "longarr"]])
         yield "persist", {"ids": rng.sample(range(8), rng.randint(2, 4)), "kinds": kinds,
                           "scheduler": "sync", "optimize_graph": True}
+    # collections that share output keys in one call (a collection with its own pieces / blocks / wrapped key / persisted
+    # copy, an Item with its to_delayed()), in every order, flat and nested
+    for e in EXPLICIT_SHARED:
+        yield e[0], dict(e[1])
+    for _ in range(ctx.n(40, 400)):
+        kinds = SHARE_KINDS_DF if rng.random() < 0.15 else SHARE_KINDS
+        nk = len(kinds)
+        ns = rng.sample(range(4), rng.choice([1, 1, 2]))
+        fam = rng.choice(["sarr", "sbag", "sitem", "sdel", "stask", "sframe" if kinds is SHARE_KINDS_DF else "sarr", None])
+        pool = [n * nk + k for n in ns for k, name in enumerate(kinds) if fam is None or name.startswith(fam) or name == "delayed"]
+        ids = [rng.choice(pool) for _ in range(rng.randint(2, 5))]
+        r = rng.random()
+        if r < 0.5:
+            yield "persist", {"ids": ids, "kinds": kinds, "scheduler": rng.choice(["sync", "sync", "threads"]),
+                              "optimize_graph": rng.random() < 0.7}
+        else:
+            delayed_ids = [n * nk + kinds.index("delayed") for n in ns]
+            args = [_hashable_fix(gen_tree(rng, 0, ids, maxdepth=2), delayed_ids, rng) for _ in range(rng.randint(1, 3))]
+            if r < 0.75:
+                yield "persistn", {"args": args, "kinds": kinds, "optimize_graph": rng.random() < 0.7}
+            else:
+                yield "compute", {"args": args, "kinds": kinds, "traverse": True, "scheduler": rng.choice(["sync", "threads"]),
+                                  "optimize_graph": rng.random() < 0.7}
     for _ in range(ctx.n(8, 80)):
         kinds = rng.choice([None, ["delayed", "array", "bag", "scalar"]])
         nk = len(kinds or KINDS)
